@@ -363,13 +363,21 @@ func (f *Fam) applyAuthz(op Op) string {
 		params.Set("nonce", "nonce-12345678")
 	}
 	sub := fmt.Sprintf("user-%d", len(f.M.Grants)+1)
-	o := w.Authorize(params, AuthzOpts{Subject: sub})
+	opts := AuthzOpts{Subject: sub}
+	grantedScopes := strings.Fields(params.Get("scope"))
+	if op.Flow == "code-partial" {
+		// the resource owner grants less than the client asked for
+		params.Set("scope", "offline a photos")
+		grantedScopes = []string{"offline", "a"}
+		opts.GrantScopes = func(req []string) []string { return without(req, "photos") }
+	}
+	o := w.Authorize(params, opts)
 	code := o.Param("code")
 	if code == "" {
 		f.Res.note("sanity:authorize-refused:" + op.Flow)
 		return "authz:" + o.Class()
 	}
-	g := &MGrant{ID: len(f.M.Grants), Client: op.Client, Subject: sub, Scopes: strings.Fields(params.Get("scope")), Origin: op.Flow,
+	g := &MGrant{ID: len(f.M.Grants), Client: op.Client, Subject: sub, Scopes: grantedScopes, Origin: op.Flow,
 		Code: code, CodeExp: w.Now().Add(w.Cfg.AuthorizeCodeLifespan)}
 	g.CodeName = fmt.Sprintf("code#%d", g.ID+1)
 	f.M.Grants = append(f.M.Grants, g)
